@@ -442,6 +442,36 @@ func dequeNonEmptyProv(c *Ctx, fn *ssa.Function, b *ssa.BasicBlock, idx int, rec
 	if found {
 		return true
 	}
+	// the expansion step written out in place: `if d.Len() == len(d.a) { d.resize(...) }` dominates (the resize leaves a
+	// positive length - C04.expand-floor - and on the other branch Len() != len(d.a) with Len() <= len(d.a) means len(d.a) > 0)
+	for _, eb := range fn.Blocks {
+		iff, ok := eb.Instrs[len(eb.Instrs)-1].(*ssa.If)
+		if !ok || eb == b || !eb.Dominates(b) {
+			continue
+		}
+		cf, ok := (guard{cond: iff.Cond, val: true, blk: eb}).asCmp()
+		if !ok || cf.op != token.EQL {
+			continue
+		}
+		xs, ys := symOf(cf.x, provEnv{}), symOf(cf.y, provEnv{})
+		isLenCall := func(e *sx) bool { return e != nil && (e.inl == "Len" || (e.op == "call" && e.s == "Len")) }
+		isBufLen := func(e *sx) bool { return e != nil && e.op == "len" && e.args[0].fieldSuffix("a") }
+		if !((isLenCall(xs) && isBufLen(ys)) || (isLenCall(ys) && isBufLen(xs))) {
+			continue
+		}
+		tb := eb.Succs[0]
+		resized := false
+		for _, in := range tb.Instrs {
+			if call, ok := in.(*ssa.Call); ok {
+				if cal := staticCallee(&call.Call); cal != nil && fname(cal) == "resize" && len(call.Call.Args) > 0 && same(call.Call.Args[0]) {
+					resized = true
+				}
+			}
+		}
+		if resized && !tb.Dominates(b) {
+			return true
+		}
+	}
 	// a dominating call, on that deque, of an in-package helper that returns only when Len() != 0 (it panics otherwise) and
 	// never replaces the buffer (d.take(idx): "panics if the deque is empty")
 	instrs(fn, func(bb *ssa.BasicBlock, i int, in ssa.Instruction) {
@@ -474,6 +504,10 @@ func dequeNonEmptyProv(c *Ctx, fn *ssa.Function, b *ssa.BasicBlock, idx int, rec
 	gs := guardsOf(b)
 	nonNeg := func(v ssa.Value) bool {
 		if k, ok := resolveVal(v).(*ssa.Const); ok && k.Value != nil && k.Int64() >= 0 {
+			return true
+		}
+		// a loop counter that starts at a non-negative value and only counts up
+		if e := symOf(resolveVal(v), provEnv{}); e.op == "iv" && e.nonNegShape() {
 			return true
 		}
 		for _, g := range gs {
